@@ -569,6 +569,17 @@ _SAFE_METHODS[collections.defaultdict] = _SAFE_METHODS[collections.OrderedDict] 
 _PLAIN = (int, float, str, bool, bytes, type(None), list, tuple, dict, set, frozenset, range, collections.deque)
 
 
+class _Closure:
+    """a function defined inside an interpreted function, together with the variables of the activation that defined it"""
+
+    def __init__(self, fn, env):
+        self.fn, self.env = fn, env
+        self.name = fn.name
+
+    def __repr__(self):
+        return f"<nested function {self.fn.name}>"
+
+
 class _Machine:
     """interprets functions of ONE module. hooks:
          on_new(cls node, obj)           called after a model instance of a class of the module was constructed
@@ -681,7 +692,7 @@ class _Machine:
         return obj
 
     # -- calls ------------------------------------------------------------------------------------------------------------------------------------
-    def call_function(self, fn, args, kwargs, cls=None, record=None):
+    def call_function(self, fn, args, kwargs, cls=None, record=None, outer=None):
         if isinstance(fn, ast.AsyncFunctionDef) or any(isinstance(n, (ast.Yield, ast.YieldFrom)) for n in walk_body(fn)):
             raise _Cannot(f"{fn.name}: coroutines / generators are not interpreted")
         a = fn.args
@@ -712,6 +723,13 @@ class _Machine:
         if record is not None:
             record.init_args = {k: v for k, v in env.items() if k != names[0]} if names else {}
         env["__class__"] = cls
+        if outer is not None:
+            # a function nested in another one sees (not: assigns) the variables of the activation that defined it, with the values they have when it is called
+            for k_, v_ in outer.items():
+                if k_ == "__class__":
+                    env["__class__"] = cls if cls is not None else v_
+                else:
+                    env.setdefault(k_, v_)
         self.depth += 1
         if self.depth > 40:
             raise _Cannot("call depth")
@@ -815,6 +833,8 @@ class _Machine:
             return self.call_function(callee.fn, [first] + list(args), kwargs, callee.cls)
         if isinstance(callee, ast.ClassDef):
             return self.new(callee, args, kwargs)
+        if isinstance(callee, _Closure):
+            return self.call_function(callee.fn, args, kwargs, outer=callee.env)
         if isinstance(callee, source.FUNC_TYPES):
             return self.call_function(callee, args, kwargs)
         if isinstance(callee, ast.Lambda):
@@ -1200,7 +1220,7 @@ class _Machine:
                     self.bind(it.optional_vars, v if isinstance(v, _Opaque) else _Opaque("context"), env)
             self.block(s.body, env)
         elif isinstance(s, source.FUNC_TYPES):
-            env[s.name] = s
+            env[s.name] = _Closure(s, env)
         elif isinstance(s, ast.Delete):
             for t in s.targets:
                 if isinstance(t, ast.Name):
@@ -1815,23 +1835,41 @@ def _same_value_locals(fn):
 
 
 def _worker_list_attrs(dm):
-    """Driver attributes that collect the started workers: self.<attr>.append(w) where w is what start_worker() is called with (role by data flow, not by attribute name)"""
+    """Driver attributes that collect the started workers: self.<attr>.append(w) where w is what start_worker() is called with (role by data flow, not by attribute name). The
+    start may be delegated: to another method of the driver or to a function nested in the method, which returns what it called start_worker() with; its result may be bound
+    to a local first or appended directly."""
     out = set()
+
+    def returns_started(h):
+        hsame = _same_value_locals(h)
+        hstarted = {hsame(c.args[0].id) for c in source.calls_in(h, attr="start_worker") if c.args and isinstance(c.args[0], ast.Name)}
+        rets = [r for r in walk_body(h) if isinstance(r, ast.Return)]
+        return bool(hstarted) and bool(rets) and all(isinstance(r.value, ast.Name) and hsame(r.value.id) in hstarted for r in rets)
+
     for m in dm.values():
         same = _same_value_locals(m)
-        started = {same(c.args[0].id) for c in source.calls_in(m, attr="start_worker") if c.args and isinstance(c.args[0], ast.Name)}
-        # a helper that is not analysed in place (not private to its caller): w = self.<helper>(...) where the helper returns what it called start_worker() with
+        nested = {n.name: n for n in ast.walk(m) if isinstance(n, ast.FunctionDef) and n is not m}
+        started = {same(c.args[0].id) for c in source.calls_in(m, attr="start_worker") if c.args and isinstance(c.args[0], ast.Name)
+                   and not any(c in list(ast.walk(f_)) for f_ in nested.values())}
+
+        def helper_of(call):
+            f = call.func
+            if isinstance(f, ast.Attribute) and isinstance(f.value, ast.Name) and f.value.id == "self" and f.attr in dm and dm[f.attr] is not m:
+                return dm[f.attr]
+            if isinstance(f, ast.Name) and f.id in nested:
+                return nested[f.id]
+            return None
+
+        def starts(call):
+            h = helper_of(call) if isinstance(call, ast.Call) else None
+            return h is not None and returns_started(h)
+
         for n in walk_body(m):
-            if isinstance(n, ast.Assign) and len(n.targets) == 1 and isinstance(n.targets[0], ast.Name) and isinstance(n.value, ast.Call) and isinstance(n.value.func, ast.Attribute) \
-                    and isinstance(n.value.func.value, ast.Name) and n.value.func.value.id == "self" and n.value.func.attr in dm and dm[n.value.func.attr] is not m:
-                h = dm[n.value.func.attr]
-                hsame = _same_value_locals(h)
-                hstarted = {hsame(c.args[0].id) for c in source.calls_in(h, attr="start_worker") if c.args and isinstance(c.args[0], ast.Name)}
-                rets = [r for r in walk_body(h) if isinstance(r, ast.Return)]
-                if hstarted and rets and all(isinstance(r.value, ast.Name) and hsame(r.value.id) in hstarted for r in rets):
-                    started.add(same(n.targets[0].id))
+            if isinstance(n, ast.Assign) and len(n.targets) == 1 and isinstance(n.targets[0], ast.Name) and starts(n.value):
+                started.add(same(n.targets[0].id))
         for c in source.calls_in(m, attr="append"):
-            if isinstance(c.func, ast.Attribute) and is_self_attr(c.func.value) and c.args and isinstance(c.args[0], ast.Name) and same(c.args[0].id) in started:
+            if isinstance(c.func, ast.Attribute) and is_self_attr(c.func.value) and c.args and (
+                    isinstance(c.args[0], ast.Name) and same(c.args[0].id) in started or starts(c.args[0])):
                 out.add(c.func.value.attr)
     return out
 
@@ -1839,7 +1877,8 @@ def _worker_list_attrs(dm):
 def _client_to_worker_attrs(dm):
     """Driver attributes mapping a client id to the id of its worker: self.<attr>[client] = <id>, where <id> is the per-worker counter handed to start_worker()"""
     out = set()
-    for m in dm.values():
+    # functions nested in a method (a start-up step written as a local function) are looked at like methods
+    for m in list(dm.values()) + [n for m_ in dm.values() for n in ast.walk(m_) if isinstance(n, ast.FunctionDef) and n is not m_]:
         given = {a.id for c in source.calls_in(m, attr="start_worker") for a in list(c.args[1:]) + [k.value for k in c.keywords] if isinstance(a, ast.Name)}
         counted = {n.target.id for n in walk_body(m) if isinstance(n, ast.AugAssign) and isinstance(n.target, ast.Name) and isinstance(n.op, ast.Add) and source.is_const(n.value, 1)}
         also = {a.id for c in source.calls_in(m, attr="create_client") for a in list(c.args) + [k.value for k in c.keywords] if isinstance(a, ast.Name)}
@@ -3624,6 +3663,8 @@ def run(chk):
 from sa.selftest import V  # noqa: E402
 
 _STEPS_OLD = "        self.number_of_steps = len(allocator.join_points) - 1\n        self.tasks_per_join_point = allocator.tasks_per_joinpoint\n"
+_WL_OLD = '        worker_id = 0\n        for assignment in worker_assignments:\n            host = assignment["host"]\n            for clients in assignment["workers"]:\n                # don\'t assign workers without any clients\n                if len(clients) > 0:\n                    self.logger.debug("Allocating worker [%d] on [%s] with [%d] clients.", worker_id, host, len(clients))\n                    worker = self.driver_actor.create_client(host, self.config, worker_id)\n\n                    client_allocations = ClientAllocations()\n                    worker_client_contexts = {}\n                    for client_id in clients:\n                        client_allocations.add(client_id, self.allocations[client_id])\n                        self.clients_per_worker[client_id] = worker_id\n                        client_context = ClientContext(client_id=client_id, parent_worker_id=worker_id)\n\n                        if create_api_keys:\n                            resp = self.create_api_key(self.default_sync_es_client, client_id)\n                            client_context.api_key = ApiKey(id=resp["id"], secret=resp["api_key"])\n\n                        worker_client_contexts[client_id] = client_context\n                        self.client_contexts[worker_id] = worker_client_contexts\n                    self.driver_actor.start_worker(\n                        worker, worker_id, self.config, self.track, client_allocations, client_contexts=worker_client_contexts\n                    )\n                    self.workers.append(worker)\n                    worker_id += 1\n\n'
+_WL_NESTED = '        def start_one(host, worker_id, clients):\n            self.logger.debug("Allocating worker [%d] on [%s] with [%d] clients.", worker_id, host, len(clients))\n            worker = self.driver_actor.create_client(host, self.config, worker_id)\n\n            client_allocations = ClientAllocations()\n            worker_client_contexts = {}\n            for client_id in clients:\n                client_allocations.add(client_id, self.allocations[client_id])\n                self.clients_per_worker[client_id] = worker_id\n                client_context = ClientContext(client_id=client_id, parent_worker_id=worker_id)\n\n                if create_api_keys:\n                    resp = self.create_api_key(self.default_sync_es_client, client_id)\n                    client_context.api_key = ApiKey(id=resp["id"], secret=resp["api_key"])\n\n                worker_client_contexts[client_id] = client_context\n                self.client_contexts[worker_id] = worker_client_contexts\n            self.driver_actor.start_worker(worker, worker_id, self.config, self.track, client_allocations, client_contexts=worker_client_contexts)\n            return worker\n\n        worker_id = 0\n        for assignment in worker_assignments:\n            host = assignment["host"]\n            for clients in assignment["workers"]:\n                # don\'t assign workers without any clients\n                if len(clients) > 0:\n                    self.workers.append(start_one(host, worker_id, clients))\n                    worker_id += 1\n\n'
 VARIANTS = [
     V("F20: 'any' arrival selected by the shared join point only", "break", _D, "if a.client_id in a.task.any_task_completes_parent]", "if a.task.any_task_completes_parent]", "O1.4"),
     V("F20 fix written with a set", "keep", _D, "if a.client_id in a.task.any_task_completes_parent]", "if a.client_id in set(a.task.any_task_completes_parent)]", "O1.4"),
@@ -4014,6 +4055,11 @@ VARIANTS += [
       "        self.tasks_per_join_point = allocator.tasks_per_joinpoint\n        self.number_of_steps = len(self.tasks_per_join_point)\n"),
     V("number of steps counts the non-empty entries of the per-step task table only (seed C02-m14)", "break", _D, _STEPS_OLD,
       "        self.tasks_per_join_point = allocator.tasks_per_joinpoint\n        self.number_of_steps = len([tasks for tasks in self.tasks_per_join_point if len(tasks) > 0])\n", "O1.3"),
+    V("start-up of one worker written as a function nested in start_benchmark", "keep", _D, _WL_OLD, _WL_NESTED),
+    V("nested start-up function: the row of the worker's number instead of the client's", "break", _D, _WL_OLD,
+      _WL_NESTED.replace("client_allocations.add(client_id, self.allocations[client_id])", "client_allocations.add(client_id, self.allocations[worker_id])"), "O1.13"),
+    V("nested start-up function: workers that simulate a single client are not started", "break", _D, _WL_OLD,
+      _WL_NESTED.replace("                if len(clients) > 0:\n", "                if len(clients) > 1:\n"), None),
     V("number of steps taken from the per-step task table, one too few", "break", _D, _STEPS_OLD,
       "        self.tasks_per_join_point = allocator.tasks_per_joinpoint\n        self.number_of_steps = len(self.tasks_per_join_point) - 1\n", "O1.3"),
 ]
